@@ -42,6 +42,8 @@ let handle (line : string) : string =
   | ["jppath"; frags] ->
       let fr w = match w.[0] with
         | 'c' -> NChild (bytes_of_hex (String.sub w 1 (String.length w - 1)))
+        | 'w' -> NWild (w = "w*")
+        | 'd' -> NDescent
         | _ -> NNth (z_of_string (String.sub w 1 (String.length w - 1))) in
       let fs = List.map fr (List.filter (fun x -> x <> "") (String.split_on_char ' ' frags)) in
       string_of_bytes (hex_of_bytes (print_path fs))
